@@ -16,7 +16,7 @@ var noEffectPrefixes = []string{
 	"github.com/0chain/common/core/common.NewError", "0chain.net/core/common.NewError",
 	"0chain.net/core/common.NewErrorf", "github.com/0chain/common/core/common.NewErrorf",
 	"0chain.net/core/common.NewErrInternal", "0chain.net/core/common.NewErrBadRequest", "0chain.net/core/common.NewErrNoResource",
-	"time.Now", "time.Since", "(time.Time).", "(time.Duration).", "strconv.", "strings.", "log.", "(*log.Logger).",
+	"time.Now", "time.Since", "(time.Time).", "(time.Duration).", "time.NewTimer", "(*time.Timer).", "time.After", "strconv.", "strings.", "log.", "(*log.Logger).",
 	"github.com/rcrowley/go-metrics.", "(*github.com/rcrowley/go-metrics.", "(github.com/rcrowley/go-metrics.",
 	"math.", "math/bits.", "sort.SearchInts", "(*sync/atomic.", "sync/atomic.Load",
 	"0chain.net/core/encryption.Hash", "0chain.net/core/encryption.RawHash", "0chain.net/core/encryption.IsHash",
